@@ -245,7 +245,47 @@ func ruleC03(p *Program, r *Run) {
 		okNames = strings.Contains(leftQ, "["+leftVar.Name()+"]") && rightDef != nil && strings.HasPrefix(rightQ, exprStr(rightDef.(*ast.AssignStmt).Lhs[0])+".")
 	}
 	r.Check(okNames, "C03/sides", fn+" names written for the two sides", p.Pos(joinCase.Pos()), fmt.Sprintf("left: %s, right: %s", leftQ, rightQ), fmt.Sprintf("the join reads %s as its left and %s as its right input; expected the saved left index and the recursion's last subquery", leftQ, rightQ))
-	r.Floor("C03/sides", 4)
+	// which source is written for the left side is decided by comparing the saved index with the entry length of dst
+	var startVar types.Object
+	if len(sq.Body.List) > 0 {
+		if as, ok := sq.Body.List[0].(*ast.AssignStmt); ok && len(as.Lhs) == 1 && len(as.Rhs) == 1 {
+			if call, ok := as.Rhs[0].(*ast.CallExpr); ok && IsBuiltinCall(info, call, "len") && objOf(info, call.Args[0]) == info.Defs[sq.Type.Params.List[0].Names[0]] {
+				startVar = objOf(info, as.Lhs[0])
+			}
+		}
+	}
+	okGuard, sawPrev, sawSource := startVar != nil && leftVar != nil, false, false
+	if okGuard {
+		lk, sk := p.ObjKey(leftVar), p.ObjKey(startVar)
+		rel := func(o *eventOcc) (known, prevSide bool) {
+			if f := o.St.Get("(" + sk + " <= " + lk + ")"); f != nil && f.HasEq {
+				return true, f.Eq == "true"
+			}
+			if f := o.St.Get("(" + lk + " < " + sk + ")"); f != nil && f.HasEq {
+				return true, f.Eq == "false"
+			}
+			return false, false
+		}
+		for _, o := range g.occs {
+			if o.Ev.Func != sq || o.Ev.Call.Pos() < joinCase.Pos() || o.Ev.Call.End() > joinCase.End() {
+				continue
+			}
+			switch {
+			case o.Ev.Kind == "Q" && strings.Contains(exprStr(o.Ev.Arg), "["+leftVar.Name()+"]"):
+				sawPrev = true
+				if known, prev := rel(o); !known || !prev {
+					okGuard = false
+				}
+			case o.Ev.Kind == "HOLE" && o.Ev.Callee != nil && o.Ev.Callee.Name() == "dataSourceSQL":
+				sawSource = true
+				if known, prev := rel(o); !known || prev {
+					okGuard = false
+				}
+			}
+		}
+	}
+	r.Check(okGuard && sawPrev && sawSource, "C03/sides", fn+" left side: previous subquery iff this pipeline already produced one", p.Pos(joinCase.Pos()), "path facts: the previous subquery is read exactly when saved index >= len(dst) at entry; otherwise the pipeline's own table", "the choice between `the previous subquery` and `the pipeline's table` as left input is not decided by comparing the saved index with the number of subqueries that existed when this pipeline started: a join at the start of a parenthesised right-hand pipeline would read the outer pipeline's subquery")
+	r.Floor("C03/sides", 5)
 
 	// ---- rewrite of bare names and AND-ing
 	ruleC03Rewrite(p, r)
